@@ -374,8 +374,8 @@ func (l *Loaded) verifyLemma(r *Runner, lm *LemmaSpec) (res *FnResult) {
 			}
 		}
 		for _, c := range sp.Ensures {
-			if strings.Contains(c.Src, "fresh(") {
-				continue // allocation facts are meaningless in the single state of a lemma
+			if strings.Contains(c.Src, "fresh(") || mentionsCallHistory(c.Src) {
+				continue // allocation facts and call histories are meaningless in the single state of a lemma
 			}
 			st.assume(uenv.EvalBool(c.E, st))
 		}
